@@ -4,6 +4,7 @@ package c03
 
 import (
 	"context"
+	"encoding/binary"
 	"fmt"
 	"math"
 	"net/netip"
@@ -795,6 +796,80 @@ func runSaltPoolTime(e *core.Env) {
 		}
 		rec.Count("saltpool_time_ops", int64(nops))
 		rec.Class("salts=%d/backs=%s/readds=%s/refusals=%s", ns, bucket(backs), bucket(readds), bucket(refusals))
+	})
+	// bursts: many salts accepted close together expire in one pruning pass while a few later ones survive
+	nb := e.N(200, 6000)
+	core.Parallel(e, "saltpool-time", nb, 8, func(j int) {
+		i := n + j
+		r := core.NewRNG(e.Seed, "c03.saltpool-burst", j)
+		burst := r.Pick(1, 64, 127, 128, 129, 200, 512, 2000)
+		rec.Begin("saltpool-time", i, fmt.Sprintf("burst=%d", burst))
+		rec.Eval()
+		var pool ss2022.SaltPool
+		base := time.Unix(1700000000, 0)
+		salt := func(id int) (s [32]byte) {
+			binary.BigEndian.PutUint64(s[:], uint64(id)+1)
+			binary.BigEndian.PutUint64(s[8:], uint64(j))
+			return
+		}
+		added := map[int]time.Duration{}
+		maxDone := time.Duration(-1)
+		var trace []string
+		add := func(now time.Duration, id int) bool {
+			got := pool.Add(base.Add(now), salt(id))
+			if len(trace) < 400 {
+				trace = append(trace, fmt.Sprintf("Add(%v, s%d)=%v", now, id, got))
+			}
+			maxDone = max(maxDone, now)
+			t, ok := added[id]
+			switch {
+			case ok && maxDone < t+ss2022.ReplayWindowDuration:
+				if got {
+					rec.Violate("saltpool-time", i, core.Sig("kind", "salt_forgotten_early", "part", "saltpool-time", "op", "add", "shape", "burst"), tailOf(trace, 30),
+						"case %d: after a burst of %d salts, salt s%d accepted with reading %v was accepted again with reading %v (no reading reached +60 s)", i, burst, id, t, now)
+					return false
+				}
+			case !ok:
+				if !got {
+					rec.Violate("saltpool-time", i, core.Sig("kind", "fresh_salt_refused", "part", "saltpool-time", "shape", "burst"), tailOf(trace, 30), "case %d: salt s%d was never added and is refused", i, id)
+					return false
+				}
+				added[id] = now
+			default:
+				if got {
+					added[id] = now
+				}
+			}
+			return true
+		}
+		t0 := time.Duration(r.Intn(5000)) * time.Millisecond
+		for k := 0; k < burst; k++ {
+			if !add(t0+time.Duration(r.Intn(200))*time.Millisecond, k) {
+				return
+			}
+		}
+		// a few survivors, accepted well after the burst
+		ns := r.Range(1, 4)
+		var surv []int
+		for k := 0; k < ns; k++ {
+			id := burst + k
+			surv = append(surv, id)
+			if !add(t0+time.Duration(r.Pick(20, 30, 45, 59))*time.Second+time.Duration(k)*time.Millisecond, id) {
+				return
+			}
+		}
+		// unrelated traffic after the burst has expired prunes it in one pass
+		if !add(t0+time.Duration(r.Pick(60200, 61000, 65000))*time.Millisecond, burst+10) {
+			return
+		}
+		// every survivor must still be refused
+		for _, id := range r.Perm(len(surv)) {
+			if !add(maxDone+time.Duration(r.Intn(3))*time.Millisecond, surv[id]) {
+				return
+			}
+		}
+		rec.Count("saltpool_time_ops", int64(len(trace)))
+		rec.Class("burst=%d/survivors=%d", burst, ns)
 	})
 }
 
